@@ -124,6 +124,11 @@ func searches(prop, tier string) []raftmc.Search {
 		one.UseTick = false
 		add(one, "lagging", d(7, 9))
 		add(one, "lagging-compacted", d(7, 9))
+		// entries of different sizes under a 100 byte page limit: a page cut inside the persisted part of the log
+		mx := raftmc.Config{Name: "mixed-sizes", N: 3, PreVote: true, CheckQuorum: true, Storage: "mem", UseTick: true, MixedSizes: true}
+		mx.MaxProp, mx.MaxUnreach = 1, 1
+		add(mx, "lagging", d(5, 8))
+		add(mx, "leader2", d(5, 8))
 		// divergent logs: elections by plain timeouts, conflicts and truncation
 		dv := raftmc.Config{Name: "divergent", N: 3, Storage: "mem", UseTimeout: true, MaxSizeOne: true, MaxTerm: 6}
 		dv.MaxProp = 1
